@@ -28,7 +28,7 @@ COMPONENTS = {"real": ["ECAgent.Batching.batch_run", "_run_model_for_batch", "_b
                        "multiprocessing.Pool (real-pool arm only, schedule not controlled)"],
               "stub": ["multiprocessing.Pool -> simkit.simpool.SimPool (discrete-event pool, pickle boundary kept)",
                        "models/systems/collectors are harness workloads (props/workloads.py)"]}
-PROBES = ["executions_running_batches_of_their_own", "collectors_rebinding_their_records", "collectors_falsy_while_empty", "parameter_named_like_a_batching_argument", "error_surfaced_while_other_workers_busy", "completion_reordered", "all_results_from_one_worker", "tie_in_finish_times", "fail_first", "fail_last",
+PROBES = ["failure_right_after_complete", "executions_running_batches_of_their_own", "collectors_rebinding_their_records", "collectors_falsy_while_empty", "parameter_named_like_a_batching_argument", "error_surfaced_while_other_workers_busy", "completion_reordered", "all_results_from_one_worker", "tie_in_finish_times", "fail_first", "fail_last",
           "max_ts_at_completion", "max_ts_below_completion", "max_ts_zero", "reps_single_combination",
           "collectors_none", "collectors_empty_list", "collectors_invalid", "parameterlist_input", "serial_order_checked",
           "second_batch_same_process", "parameterlist_reused_edit_returned", "parameterlist_reused_grid_search_first", "sibling_parameterlist_edited",
@@ -144,9 +144,9 @@ def generate(rng, tier):
     if rng.random() < 0.03:
         exc = "TwoArgError"          # trigger of known finding F11 (rare on purpose)
     if r < 0.12:
-        fail = {"k": "all", "where": rng.choice(["ctor", "system"]), "t": rng.randint(0, 3), "exc": exc}
+        fail = {"k": "all", "where": rng.choice(["ctor", "system", "after_complete"]), "t": rng.randint(0, 3), "exc": exc}
     elif r < 0.25:
-        fail = {"k": rng.randrange(size * reps), "where": rng.choice(["ctor", "system"]), "t": rng.randint(0, 3), "exc": exc}
+        fail = {"k": rng.randrange(size * reps), "where": rng.choice(["ctor", "system", "after_complete"]), "t": rng.randint(0, 3), "exc": exc}
     second = None
     if fail is None and coll["form"] != "invalid" and rng.random() < 0.3:
         # a second, different batch in the same process: nothing of the first may carry over
@@ -322,6 +322,10 @@ def one_batch(ctx, sc, fail, label):
                 lim = min(lim, sc["max_ts"])
             fire_t = min(fail.get("t", 0), max(0, W.stop_at_of(sig) - 1))
             fires = fire_t < lim
+        elif fail["where"] == "after_complete":
+            fires = sc["max_ts"] is None or sc["max_ts"] > W.stop_at_of(sig)       # the model reaches its own completion
+            if fires:
+                ctx.probe("failure_right_after_complete")
         if fires:
             ctx.fault("pool.fail")
             ctx.probe("fail_first" if k == 0 else ("fail_last" if k == len(E) - 1 else "fail_middle"))
